@@ -113,6 +113,7 @@ type fnTrans struct {
 	declared map[string]bool
 	strict bool
 	freeVarVals map[string]Val
+	cse map[string]string
 }
 
 func (t *fnTrans) errorf(format string, a ...interface{}) {
@@ -757,7 +758,7 @@ func translateFunc(eng *Engine, fn *ssa.Function, ct *Contract) (t *fnTrans) {
 		vals: map[ssa.Value]Val{}, lvals: map[ssa.Value]*LVal{},
 		reach: map[*ssa.BasicBlock]string{}, edges: map[[2]int]string{}, outSt: map[*ssa.BasicBlock]*State{},
 		ordc: map[string]int{}, params: map[string]Val{}, paramLV: map[string]*LVal{}, declared: map[string]bool{},
-		freeVarVals: map[string]Val{}}
+		freeVarVals: map[string]Val{}, cse: map[string]string{}}
 	defer func() {
 		if r := recover(); r != nil {
 			t.errorf("translator panic: %v", r)
@@ -806,6 +807,7 @@ func translateFunc(eng *Engine, fn *ssa.Function, ct *Contract) (t *fnTrans) {
 		t.errorf("requires: %s", e)
 	}
 
+	t.runGhosts(t.st, "entry", 0, nil)
 	blocks := t.order()
 	for _, b := range blocks {
 		t.block(b)
@@ -931,6 +933,24 @@ func (t *fnTrans) block(b *ssa.BasicBlock) {
 					}
 					vars["$"+phi.Name()] = t.val(phi.Edges[in.idx])
 				}
+				hasG := false
+				for _, g := range t.ct.Ghosts {
+					if g.At == "entry" && g.Loop == li.ordinal {
+						hasG = true
+					}
+				}
+				if hasG {
+					if len(incs) != 1 {
+						t.errorf("ghost statements at loop %d entry need a single entry edge", li.ordinal)
+					}
+					t.runGhosts(in.st, "entry", li.ordinal, vars)
+					// the merged state was computed before: refresh ghost heaps
+					for k, v := range in.st.heaps {
+						if strings.HasPrefix(k, "G.") {
+							t.st.heaps[k] = v
+						}
+					}
+				}
 				t.checkInvariant(li, in.st, vars, in.edge, "inv-entry", in.pred.Instrs[len(in.pred.Instrs)-1])
 			}
 			t.havocLoop(li)
@@ -985,6 +1005,30 @@ func (t *fnTrans) block(b *ssa.BasicBlock) {
 		t.instr(ins)
 	}
 	t.outSt[b] = t.st
+}
+
+// runGhosts executes the ghost statements registered for a position in state st.
+func (t *fnTrans) runGhosts(st *State, at string, loop int, vars map[string]Val) {
+	for _, g := range t.ct.Ghosts {
+		if g.At != at || g.Loop != loop {
+			continue
+		}
+		env := t.specEnv(st, t.entry)
+		for k, v := range vars {
+			env.vars[k] = v
+		}
+		idx := env.eval(g.Idx).C[0]
+		val := env.eval(g.Val).C[0]
+		hn := "G." + g.Name
+		t.eng.heapSort[hn] = "(Array Int Int)"
+		old := t.heapGet(st, hn, "(Array Int Int)")
+		saved := t.st
+		t.heapSet(st, hn, "(Array Int Int)", sto(old, idx, val))
+		t.st = saved
+		for _, e := range env.errs {
+			t.errorf("ghost %s: %s", g.Text, e)
+		}
+	}
 }
 
 func (t *fnTrans) loopVars(li *loopInfo) map[string]Val {
@@ -1044,11 +1088,307 @@ func (t *fnTrans) checkInvariant(li *loopInfo, st *State, vars map[string]Val, g
 }
 
 // havocLoop forgets everything the loop body may modify.
+// locset: where a loop may write within one heap. whole=true: anywhere.
+type locset struct {
+	whole bool
+	roots []string // array ids / object refs (SMT terms valid at the loop head)
+}
+
+func (t *fnTrans) definedOutside(li *loopInfo, v ssa.Value) bool {
+	switch x := v.(type) {
+	case *ssa.Parameter, *ssa.FreeVar, *ssa.Const, *ssa.Global:
+		return true
+	case ssa.Instruction:
+		return !li.body[x.Block()]
+	}
+	return false
+}
+
+// arrRootTerm: the array id written through slice value v, if it is fixed across iterations.
+// fresh=true: the array is allocated inside the loop (no pre-existing array is written).
+func (t *fnTrans) arrRootTerm(li *loopInfo, v ssa.Value) (term string, fresh, ok bool) {
+	for i := 0; i < 20; i++ {
+		if t.definedOutside(li, v) {
+			if _, isSl := under(v.Type()).(*types.Slice); isSl {
+				return t.val(v).C[0], false, true
+			}
+			if lv, has := t.lvals[v]; has && lv.Kind == lvArr {
+				return lv.Ref, false, true
+			}
+			return "", false, false
+		}
+		switch x := v.(type) {
+		case *ssa.Slice:
+			v = x.X
+		case *ssa.ChangeType:
+			v = x.X
+		case *ssa.Alloc, *ssa.MakeSlice:
+			return "", true, true
+		default:
+			return "", false, false
+		}
+	}
+	return "", false, false
+}
+
+func (t *fnTrans) objRefTerm(li *loopInfo, v ssa.Value) (string, bool) {
+	if t.definedOutside(li, v) {
+		if lv, has := t.lvals[v]; has {
+			if lv.Kind == lvObj {
+				return lv.Ref, true
+			}
+			return "", false
+		}
+		if _, isP := under(v.Type()).(*types.Pointer); isP {
+			if g, isG := v.(*ssa.Global); isG {
+				return t.eng.globalRef(g), true
+			}
+			return t.val(v).C[0], true
+		}
+		return "", false
+	}
+	if fa, ok := v.(*ssa.FieldAddr); ok {
+		S := deref(fa.X.Type())
+		f := under(S).(*types.Struct).Field(fa.Field)
+		if !isStruct(f.Type()) {
+			return "", false
+		}
+		base, ok := t.objRefTerm(li, fa.X)
+		if !ok {
+			return "", false
+		}
+		if fa.Field == 0 {
+			return base, true
+		}
+		return subref(base, S, fa.Field), true
+	}
+	if _, ok := v.(*ssa.Alloc); ok {
+		return "", false
+	}
+	return "", false
+}
+
+// locate tries to say where instruction ins writes; returns false if unknown.
+func (t *fnTrans) locate(li *loopInfo, ins ssa.Instruction, heaps map[string]bool, out map[string]*locset) {
+	add := func(root string) {
+		for h := range heaps {
+			ls := out[h]
+			if ls == nil {
+				ls = &locset{}
+				out[h] = ls
+			}
+			if root != "" {
+				ls.roots = append(ls.roots, root)
+			}
+		}
+	}
+	whole := func() {
+		for h := range heaps {
+			ls := out[h]
+			if ls == nil {
+				ls = &locset{}
+				out[h] = ls
+			}
+			ls.whole = true
+		}
+	}
+	switch x := ins.(type) {
+	case *ssa.Alloc, *ssa.MakeSlice, *ssa.MakeMap, *ssa.MakeClosure, *ssa.MakeInterface, *ssa.Convert:
+		add("") // only fresh objects are written
+		return
+	case *ssa.Store:
+		switch a := x.Addr.(type) {
+		case *ssa.IndexAddr:
+			if r, fresh, ok := t.arrRootTerm(li, a.X); ok {
+				if fresh {
+					add("")
+				} else {
+					add(r)
+				}
+				return
+			}
+		case *ssa.FieldAddr:
+			if root, _, _, isElem := elemPath(a); isElem {
+				if ia, ok := root.(*ssa.IndexAddr); ok {
+					if r, fresh, ok := t.arrRootTerm(li, ia.X); ok {
+						if fresh {
+							add("")
+						} else {
+							add(r)
+						}
+						return
+					}
+				}
+			} else if r, ok := t.objRefTerm(li, a.X); ok {
+				add(r)
+				return
+			} else if al, isAlloc := a.X.(*ssa.Alloc); isAlloc && li.body[al.Block()] {
+				add("")
+				return
+			}
+		}
+	case *ssa.Call:
+		c := &x.Call
+		name, sig, kind := t.calleeName(c)
+		if kind == "builtin" {
+			switch name {
+			case "copy", "append":
+				if r, fresh, ok := t.arrRootTerm(li, c.Args[0]); ok {
+					if fresh {
+						add("")
+					} else {
+						add(r)
+					}
+					return
+				}
+			default:
+				add("")
+				return
+			}
+			break
+		}
+		ct := t.eng.contractFor(name)
+		if ct == nil {
+			break
+		}
+		// map parameter names to actual arguments
+		var pnames []string
+		var args []ssa.Value
+		if kind == "invoke" {
+			pnames = append(pnames, "self")
+			args = append(args, c.Value)
+		} else if sig.Recv() != nil {
+			pnames = append(pnames, sig.Recv().Name())
+		}
+		for i := 0; i < sig.Params().Len(); i++ {
+			pnames = append(pnames, sig.Params().At(i).Name())
+		}
+		if an, ok := ct.Flags["args"]; ok {
+			pnames = strings.Split(strings.ReplaceAll(an, " ", ""), ",")
+		}
+		args = append(args, c.Args...)
+		argOf := func(n string) ssa.Value {
+			for i, p := range pnames {
+				if p == n && i < len(args) {
+					return args[i]
+				}
+			}
+			return nil
+		}
+		okAll := true
+		type pend struct {
+			heaps []string
+			root  string
+		}
+		var pends []pend
+		for _, loc := range ct.Modifies {
+			e, err := parseLoc(loc)
+			if err != nil {
+				okAll = false
+				break
+			}
+			hs := t.locHeapNames(ct, loc, c)
+			switch n := e.(type) {
+			case *ast.CallExpr:
+				id, _ := n.Fun.(*ast.Ident)
+				if id != nil && (id.Name == "elems" || id.Name == "capelems") {
+					if pid, ok := n.Args[0].(*ast.Ident); ok {
+						if av := argOf(pid.Name); av != nil {
+							if r, fresh, ok := t.arrRootTerm(li, av); ok {
+								if fresh {
+									r = ""
+								}
+								pends = append(pends, pend{hs, r})
+								continue
+							}
+						}
+					}
+				}
+				okAll = false
+			case *ast.SelectorExpr:
+				if pid, ok := n.X.(*ast.Ident); ok {
+					if av := argOf(pid.Name); av != nil {
+						if r, ok := t.objRefTerm(li, av); ok {
+							// promoted fields through embedded structs at offset 0 share the ref
+							pends = append(pends, pend{hs, r})
+							continue
+						}
+					}
+				}
+				okAll = false
+			default:
+				okAll = false
+			}
+		}
+		if len(ct.GhostOut) > 0 {
+			for _, g := range ct.GhostOut {
+				if ls := out["G."+g]; ls == nil {
+					out["G."+g] = &locset{whole: true}
+				} else {
+					ls.whole = true
+				}
+			}
+		}
+		if okAll {
+			touched := map[string]bool{}
+			for _, p := range pends {
+				for _, h := range p.heaps {
+					touched[h] = true
+					ls := out[h]
+					if ls == nil {
+						ls = &locset{}
+						out[h] = ls
+					}
+					if p.root != "" {
+						ls.roots = append(ls.roots, p.root)
+					}
+				}
+			}
+			for h := range heaps {
+				if !touched[h] {
+					if strings.HasPrefix(h, "G.") {
+						continue
+					}
+					if out[h] == nil {
+						out[h] = &locset{}
+					}
+					if h != "$top" && h != "$held" {
+						// a heap reported by callEffects but not located: be conservative
+						out[h].whole = true
+					}
+				}
+			}
+			return
+		}
+	}
+	whole()
+}
+
+// havocLoop forgets everything the loop body may modify; for heaps whose writes can be
+// located (fixed arrays / objects), everything else that existed at the loop head is kept.
 func (t *fnTrans) havocLoop(li *loopInfo) {
 	mods := map[string]bool{}
+	locs := map[string]*locset{}
 	for b := range li.body {
 		for _, ins := range b.Instrs {
-			t.instrEffects(ins, mods)
+			m1 := map[string]bool{}
+			t.instrEffects(ins, m1)
+			if len(m1) == 0 {
+				continue
+			}
+			for k := range m1 {
+				mods[k] = true
+			}
+			nerr := len(t.errs)
+			t.locate(li, ins, m1, locs)
+			t.errs = t.errs[:nerr]
+		}
+	}
+	for _, g := range t.ct.Ghosts {
+		if g.Loop == li.ordinal && g.At == "latch" {
+			mods["G."+g.Name] = true
+			t.eng.heapSort["G."+g.Name] = "(Array Int Int)"
+			locs["G."+g.Name] = &locset{whole: true}
 		}
 	}
 	var names []string
@@ -1062,8 +1402,22 @@ func (t *fnTrans) havocLoop(li *loopInfo) {
 		if !ok {
 			continue
 		}
-		t.heapGet(t.st, k, sortOf)
-		t.heapHavoc(t.st, k, sortOf)
+		old := t.heapGet(t.st, k, sortOf)
+		n := t.heapHavoc(t.st, k, sortOf)
+		ls := locs[k]
+		located := ls != nil && !ls.whole && (strings.HasPrefix(k, "E.") || strings.HasPrefix(k, "F."))
+		if located {
+			var ex []string
+			seen := map[string]bool{}
+			for _, r := range ls.roots {
+				if !seen[r] {
+					seen[r] = true
+					ex = append(ex, not(eq("a!f", r)))
+				}
+			}
+			body := imp(and(append([]string{le("a!f", oldTop)}, ex...)...), eq(sel(n, "a!f"), sel(old, "a!f")))
+			t.assume(fmt.Sprintf("(forall ((a!f Int)) (! %s :pattern ((select %s a!f))))", body, n))
+		}
 	}
 	t.regroup(t.st, names)
 	if mods["$top"] {
@@ -1105,6 +1459,7 @@ func (t *fnTrans) setEdge(b *ssa.BasicBlock, k int, f string) {
 			}
 			break
 		}
+		t.runGhosts(t.st, "latch", li.ordinal, vars)
 		t.checkInvariant(li, t.st, vars, name, "inv-preserve", b.Instrs[len(b.Instrs)-1])
 		return
 	}
